@@ -319,8 +319,13 @@ static int h_realloc(void **pp, size_t o, size_t n) {
     deep_call(g_deep_depth, &r);
     return r.rc;
 }
+/* configurations "-oom": every operation starts with AWS_ERROR_OOM in the thread's last-error slot, left there by an unrelated
+ * failure (a full ring buffer, say): the accounting is a function of the calls made through the tracer, not of the calling
+ * thread's error state (added after a seeded change whose realloc consulted aws_last_error() to decide whether it had failed) */
+static int g_amb_oom;
 static void m_apply(int op) {
     cur_op = op;
+    if (g_amb_oom) aws_raise_error(AWS_ERROR_OOM);
     if (op < OP_DUMP) {
         int k = empty_slot();
         bool is_calloc = op >= OP_CAL;
@@ -379,6 +384,7 @@ static void m_apply(int op) {
     size_t osz = oldp ? sl[k].size : 0;
     void *p = oldp;
     aws_reset_error();
+    if (g_amb_oom) aws_raise_error(AWS_ERROR_OOM);
     int rc = h_realloc(&p, osz, nsz);
     ESX_CHECK(rc == AWS_OP_SUCCESS, "realloc-result", "%s (old size %zu) returned %d, error %d", nm, osz, rc, aws_last_error());
     if (esx_failed) return;
@@ -555,6 +561,7 @@ static struct esx_model model = {
 };
 
 static void set_cfg(int lv, int rmode, int wcalloc) {
+    g_amb_oom = 0;
     static const char *lvn[5] = {"none", "bytes", "st1", "st8", "st128"};
     g_cfg.level = lv == 0 ? AWS_MEMTRACE_NONE : lv == 1 ? AWS_MEMTRACE_BYTES : AWS_MEMTRACE_STACKS;
     g_cfg.frames = lv == 2 ? 1 : lv == 3 ? 8 : lv == 4 ? 128 : 0;
@@ -585,8 +592,22 @@ int main(int argc, char **argv) {
                 }
                 model.max_depth = 40; /* fixpoint expected long before */
                 esx_run(&model);
-        ESX_CYCLES(&model);
+                ESX_CYCLES(&model);
             }
+    /* the BYTES level once more with a stale OOM on the thread before every operation (realloc stays in place / moves) */
+    for (int rmode = 1; rmode < 3; ++rmode) {
+        set_cfg(1, rmode, 0);
+        g_amb_oom = 1;
+        strncat(g_cfg.name, "-oom", sizeof(g_cfg.name) - strlen(g_cfg.name) - 1);
+        if (v_replay_token) {
+            if (esx_token_is_for(v_replay_token, g_cfg.name)) rc |= esx_replay(&model, v_replay_token);
+            continue;
+        }
+        model.max_depth = 40;
+        esx_run(&model);
+        ESX_CYCLES(&model);
+    }
+    g_amb_oom = 0;
     v_finish();
     return (v_sh->viol_count || rc) ? 1 : 0;
 }
